@@ -150,7 +150,7 @@ func c06Shape(n parser.ASTNode) string {
 
 func c06MaxTokens() int {
 	if nd.Thorough() {
-		return 5
+		return 4 // 23^4 = 279841 sequences; 23^5 does not finish within the thorough deadline
 	}
 	return 3
 }
